@@ -55,27 +55,45 @@ pub fn panic_head(p: &PanicInfo) -> String {
     format!("{file} \"{msg}\"")
 }
 
-/// Cause class of a back-end crash: is the program rejected once all modules are merged
-/// into one (per-module inference hole), or is it accepted regardless?
-fn cause_class(prog: Option<&Program>) -> &'static str {
+/// Cause class of a back-end crash.
+/// * several modules and the merged single-module program is rejected with InvalidType by
+///   the real compiler: the per-module inference hole (D4);
+/// * single module: does the reference kind checker (kinds.rs) accept the program? If it
+///   does, the kind system itself lets the value through (D3, D13-D15); if it does not,
+///   the compiler skipped a check that the language requires.
+fn cause_class(prog: Option<&Program>) -> String {
     let Some(p) = prog else {
-        return "accepted program";
+        return "accepted program".into();
     };
-    if p.modules.len() < 2 {
-        return "accepted program";
-    }
-    let Some(merged) = space::merge_modules(p) else {
-        return "accepted program";
-    };
-    let printed = print(&merged);
-    let files = pipeline::files_of(&printed.texts);
-    match guard(|| pipeline::load(&files, "main.oal")) {
-        Ok(Err(pipeline::LoadError::Compile(e)))
-            if pipeline::kind_name(&e.kind) == "InvalidType" =>
-        {
-            "cross-module"
+    if p.modules.len() >= 2 {
+        if let Some(merged) = space::merge_modules(p) {
+            let printed = print(&merged);
+            let files = pipeline::files_of(&printed.texts);
+            if let Ok(Err(pipeline::LoadError::Compile(e))) = guard(|| pipeline::load(&files, "main.oal")) {
+                if pipeline::kind_name(&e.kind) == "InvalidType" {
+                    return "cross-module".into();
+                }
+            }
+            // The merged program is accepted too: classify it like a single module.
+            return cause_class(Some(&merged));
         }
-        _ => "accepted program",
+        return "accepted multi-module program".into();
+    }
+    match crate::kinds::verdict(p) {
+        crate::kinds::Verdict::Accept => "well-kinded per the reference kind checker".into(),
+        crate::kinds::Verdict::InvalidType(w) => {
+            let class = if w.starts_with("cycle") {
+                "cycle without a schema to cut at".to_owned()
+            } else if w.starts_with("unification") {
+                "unsolvable kind constraints".to_owned()
+            } else {
+                // "ill-formed <what>: <kind>"
+                w.split(':').next().unwrap_or("kind predicate").to_owned()
+            };
+            format!("the reference kind checker rejects it ({class})")
+        }
+        crate::kinds::Verdict::NotInScope | crate::kinds::Verdict::Duplicate => "name error per the reference".into(),
+        crate::kinds::Verdict::Unsupported(_) => "accepted program".into(),
     }
 }
 
@@ -141,7 +159,7 @@ fn visit_program(sink: &mut Sink, idx: u64, p: &Program) {
     }
     let printed = print(p);
     let texts = printed.texts;
-    sink.visit(idx, || texts_json(&texts), |_| judge(&texts, Some(p)));
+    sink.visit(idx, || crate::props::c02::program_json(p, &texts), |_| judge(&texts, Some(p)));
 }
 
 impl Engine for C01 {
@@ -246,7 +264,8 @@ impl Engine for C01 {
     }
     fn replay(&self, case: &Value) -> Outcome {
         let texts = texts_from_json(case);
-        judge(&texts, None)
+        let prog = serde_json::from_value::<Program>(case["ast"].clone()).ok();
+        judge(&texts, prog.as_ref())
     }
     fn rule(&self) -> String {
         "every expression tree with <= k constructors over 13 leaves, 19 unary and 7 binary constructors (all syntax forms) in each of 26 one-hole contexts (response range, domain, res, relation uri, transfer list, let/alias/@ref bodies, property value, array item, object member, operand of & | ~ ::, status/media/headers meta, URI variable, function body, function argument, body of a function / value defined in an imported module, rec body, transfer parameters); the two-module product bodies x arguments x 6 use sites; the full annotation matrix. The compiler decides what is accepted. Non-trivial = accepted or rejected with a compile error; distinct = distinct emitted documents / rejection classes".into()
